@@ -88,7 +88,7 @@ def rrEncode (x : RouteRefresh) : Bytes :=
 /-! ### `Message::from_octets(octets, None)` (mod.rs:95) -/
 
 inductive Kind where
-  | open | notification | keepalive
+  | open | notification | keepalive | routeRefresh
   deriving DecidableEq, Repr
 
 def msgFromOctets (bs : Bytes) : Outcome (Kind × Bytes) :=
@@ -103,7 +103,9 @@ def msgFromOctets (bs : Bytes) : Outcome (Kind × Bytes) :=
            | .ok m => .ok (.notification, m) | .err => .err | .panic => .panic
     | 4 => match kaFromOctets bs with
            | .ok m => .ok (.keepalive, m) | .err => .err | .panic => .panic
-    | _ => .err            -- ROUTE-REFRESH and unknown types: Unsupported
+    | 5 => match rrFromOctets bs with     -- `RouteRefreshMessage::from_octets(octets)?` (since the repair of K13)
+           | .ok _ => .ok (.routeRefresh, bs) | .err => .err | .panic => .panic
+    | _ => .err            -- unknown types: Unsupported
 
 /-- `Message::msg_type()`: `range(..19)` then byte 18 -/
 def msgType (m : Bytes) : Outcome UInt8 := do
